@@ -558,6 +558,16 @@ def note_list(stdout):
     return [int(x) for x in m.group(1).split(',') if x.strip()]
 
 
+def note_bytes_lines(stdout):
+    '''The bytes print() wrote for the NOTE (from the newline that starts it to
+    the newline that ends it), split at newline characters; [] without NOTE.'''
+    start = stdout.find('\nNOTE:')
+    if start < 0:
+        return []
+    end = stdout.index('\nfinished at:', start)
+    return stdout[start:end].split('\n')
+
+
 def body_after_header(text):
     '''The written file without its three // header lines.'''
     lines = text.split('\n')
